@@ -8,7 +8,7 @@ from abc import ABC, abstractmethod
 
 from kernpy.core import Document, SpineOperationToken, HeaderToken, Importer, TokenCategory, InstrumentToken, \
     TOKEN_SEPARATOR, DECORATION_SEPARATOR, Token, NoteRestToken, HEADERS, BEKERN_CATEGORIES, ComplexToken, Node, \
-    TokenCategoryHierarchyMapper
+    TokenCategoryHierarchyMapper, ChordToken
 from kernpy.core.tokenizers import Encoding, TokenizerFactory, Tokenizer
 
 
@@ -434,7 +434,7 @@ class Exporter:
     def is_signature_cancelled(self, signature_node, node, from_stage, to_stage) -> bool:
         if node.token.__class__ == signature_node.token.__class__:
             return True
-        elif isinstance(node.token, NoteRestToken):
+        elif isinstance(node.token, (NoteRestToken, ChordToken)):
             return False
         elif from_stage < to_stage:
             for child in node.children:
